@@ -131,12 +131,12 @@ func getKey(t fataler, id keyID) *pkey {
 	return k
 }
 
-// sizes: prime bits -> weight. Mostly 1024-bit N, some 1536 / 2048 / 3072.
+// sizes: prime bits -> weight. Mostly 1024-bit N (65 %), some 1536 (15 %) / 2048 (15 %) / 3072 (5 %).
 var sizeGen = rapid.SampledFrom([]int{
-	512, 512, 512, 512, 512, 512, 512, 512, 512, 512, 512,
+	512, 512, 512, 512, 512, 512, 512, 512, 512, 512, 512, 512, 512,
 	768, 768, 768,
-	1024, 1024, 1024, 1024,
-	1536, 1536,
+	1024, 1024, 1024,
+	1536,
 })
 
 var kindGen = rapid.SampledFrom([]string{"ord", "blum", "safe"})
